@@ -415,8 +415,10 @@ def parse_kani_output(out):
 
 
 def extract_concrete_test(out):
-    m = re.search(r"Concrete playback unit test for `[^`]+`:\n```\n(.*?)```", out, re.S)
-    return m.group(1) if m else None
+    """The concrete-playback unit test of a FAILED check (not of a cover property)."""
+    blocks = re.findall(r"Concrete playback unit test for `[^`]+`:\n```\n(.*?)```", out, re.S)
+    bad = [b for b in blocks if not re.search(r"/// Check for `cover`", b)]
+    return bad[0] if bad else None
 
 
 def run_kani_harness(unit, scratch, features_off=False, playback=False):
@@ -551,6 +553,46 @@ def run_kani_batch(units, scratch, features_off=False, jobs=8, timeout=2400):
     return results
 
 
+def native_replay(unit, scratch, concrete_test, features_off=False):
+    """Run Kani's concrete-playback unit test natively on the real code (cargo kani playback)."""
+    m = re.search(r"fn (kani_concrete_playback_\w+)", concrete_test or "")
+    if not m:
+        return None
+    tname = m.group(1)
+    # which harness file?  <module path>::verif_kani[_gen]::<fn>
+    parts = unit["harness"].split("::")
+    modname = parts[-2]
+    # locate the `#[path = "..."] mod <modname>;` line in the scratch copy
+    hit = None
+    for root, _d, fs in os.walk(os.path.join(scratch, "src")):
+        for f in fs:
+            p = os.path.join(root, f)
+            t = open(p).read()
+            mm = re.search(r'#\[path = "([^"]+)"\]\nmod %s;' % re.escape(modname), t)
+            if mm and re.search(r"\bfn %s\b" % re.escape(parts[-1]), open(mm.group(1)).read()):
+                hit = (p, t, mm)
+    if not hit:
+        return "native replay not possible: harness file not found"
+    p, t, mm = hit
+    newh = os.path.join(BUILD, "playback_%s_%d.rs" % (unit["id"].replace(".", "_"), os.getpid()))
+    with open(newh, "w") as f:
+        f.write(open(mm.group(1)).read() + "\n" + concrete_test + "\n")
+    with open(p, "w") as f:
+        f.write(t[:mm.start(1)] + newh + t[mm.end(1):])
+    cmd = ["cargo", "kani", "playback", "-Z", "concrete-playback"]
+    if features_off:
+        cmd += ["--no-default-features"]
+    cmd += ["--", tname]
+    rc, so, se, dt = sh(cmd, cwd=scratch, timeout=900, env={"VERIF_KF_DIR": os.path.join(BUILD, "kf"),
+                                                            "CARGO_TARGET_DIR": os.path.join(BUILD, "kani_playback_target")})
+    with open(p, "w") as f:
+        f.write(t)
+    out = so + "\n" + se
+    pan = re.findall(r"panicked at [^\n]*\n[^\n]*", out)
+    res = re.findall(r"test result: [^\n]*", out)
+    return "cargo kani playback -- %s  (exit %d, %.0fs)\n%s\n%s" % (tname, rc, dt, "\n".join(pan[:3]), "\n".join(res[:2]))
+
+
 # --------------------------------------------------------------------------------------
 def load_registry():
     with open(os.path.join(CONTRACTS, "units.toml"), "rb") as f:
@@ -626,6 +668,17 @@ def main():
     verus_units = [u for u in units if u["kind"] in ("verus",)]
     kani_units = [u for u in units if u["kind"] == "kani"]
     kani_nf_units = [u for u in units if u["kind"] == "kani_nofeat"]
+    if tier == "thorough":
+        # every complete leaf harness is re-proved on the feature-off build as well
+        have_nf = set(u["harness"] for u in kani_nf_units)
+        for u in kani_units:
+            if not u.get("bounded") and u["harness"] not in have_nf and "unknown_on" not in u["harness"] and "unknown_5" not in u["harness"] \
+                    and not [f for f in findings if f.get("obligation") == u["id"]]:
+                d = dict(u)
+                d["id"] = u["id"] + "@nofeat"
+                d["kind"] = "kani_nofeat"
+                kani_nf_units.append(d)
+                units.append(d)
     build_units = [u for u in units if u["kind"] == "build"]
 
     # expanded source is shared: produce it once before fanning out
@@ -651,8 +704,8 @@ def main():
             kani_futs = []
             if kani_units:
                 scratch = kani_scratch(repo)
-                if args.update_ledger:
-                    # full-format individual runs: records CBMC check counts and cover results in the ledger
+                if args.update_ledger or tier == "thorough":
+                    # full-format individual runs: CBMC check counts and cover results are measured on this run
                     k0 = run_kani_harness(kani_units[0], scratch)
                     results.append(k0)
                     futs += [ex.submit(run_kani_harness, u, scratch) for u in kani_units[1:]]
@@ -660,7 +713,7 @@ def main():
                     kani_futs.append(ex.submit(run_kani_batch, kani_units, scratch, False, args.jobs // 2))
             if kani_nf_units:
                 scratch_nf = kani_scratch(repo, features_off=True)
-                if args.update_ledger:
+                if args.update_ledger or tier == "thorough":
                     k0 = run_kani_harness(kani_nf_units[0], scratch_nf, features_off=True)
                     results.append(k0)
                     futs += [ex.submit(run_kani_harness, u, scratch_nf, True) for u in kani_nf_units[1:]]
@@ -681,6 +734,11 @@ def main():
                     sc = scratch_nf if u["kind"] == "kani_nofeat" else scratch
                     rr = run_kani_harness(u, sc, u["kind"] == "kani_nofeat", playback=True)
                     r["concrete_test"] = rr.get("concrete_test")
+                    if r["concrete_test"]:
+                        try:
+                            r["replay_native"] = native_replay(u, sc, r["concrete_test"], u["kind"] == "kani_nofeat")
+                        except Exception as e:      # replay is best effort; the violation stands on the failed check
+                            r["replay_native"] = "native replay failed to run: %s" % e
         except AnchorLost as e:
             results.append({"id": "kani-setup", "kind": "kani", "status": "undecided", "reason": str(e), "bounded": False})
         finally:
